@@ -1947,9 +1947,6 @@ class QuicConnection:
             for cid in self._peer_cid_available
             if cid.sequence_number < self._peer_retire_prior_to
         ]
-        if self._peer_cid.sequence_number < self._peer_retire_prior_to:
-            change_cid = True
-            retire.insert(0, self._peer_cid)
 
         # update available CIDs
         self._peer_cid_available = [
@@ -1969,6 +1966,14 @@ class QuicConnection:
                 )
             )
             self._peer_cid_sequence_numbers.add(sequence_number)
+
+        # the active CID can only be retired if there is another one to switch to
+        if (
+            self._peer_cid.sequence_number < self._peer_retire_prior_to
+            and self._peer_cid_available
+        ):
+            change_cid = True
+            retire.insert(0, self._peer_cid)
 
         # retire previous CIDs
         for quic_connection_id in retire:
